@@ -393,6 +393,7 @@ struct go {
 	int argc;
 	char ** argv;
 	long iters, maxiters;
+	long stop_after;	/* > 0: leave the GETOPT loop after this many labels */
 	int nopts, nargs, ndefault;
 	int bad;
 	char * msg;
@@ -432,6 +433,9 @@ check_optarg(struct go * g, const char * what)
 			return;						\
 		}							\
 		if (g->bad)						\
+			return;						\
+		/* the caller may abandon the loop after any label (e.g. on an unknown option) */ \
+		if ((g->stop_after > 0) && (g->iters > g->stop_after))	\
 			return;						\
 		(void)touch(ch, strlen(ch) + 1);
 
@@ -522,7 +526,8 @@ shim_getopt(int table, int argc, char ** argv, int opterr_on, int * nopts,
 		g.maxiters += (long)strlen(argv[i]) + 2;
 
 	optreset = 1;
-	opterr = opterr_on;
+	opterr = opterr_on & 1;
+	g.stop_after = (opterr_on >> 1);	/* bits 1.. of the flag word: abandon after that many labels (0 = run to the end) */
 	if (table == 0)
 		loop0(&g);
 	else
@@ -534,6 +539,8 @@ shim_getopt(int table, int argc, char ** argv, int opterr_on, int * nopts,
 	*optind_out = optind;
 	if (g.bad)
 		return (1);
+	if (g.stop_after > 0 && g.iters > g.stop_after)
+		goto out;	/* abandoned: optind is whatever it was */
 	if ((optind < 1) || ((optind > argc) && !((argc == 0) && (optind == 1))))
 		FAIL("optind = %d after the loop with argc = %d", optind, argc);
 out:
